@@ -1,4 +1,5 @@
 import Cellml.Load.Lemmas
+import Cellml.Load.PermOutcome
 import Cellml.Units.Lemmas
 
 /-! # C01 — loading a CellML document preserves its mathematics (flattening fidelity)
@@ -12,7 +13,9 @@ import Cellml.Units.Lemmas
     interpretation `den : Scale → Rat` is a PARAMETER of every theorem, constrained only by `DenOK` (respects equality of
     scales, `den 1 = 1`). `Load.denInt` is an instance, exact for integer exponents (`denOK_denInt`).
 
-    Everything is proved for ALL documents: any number of components, any nesting, any chain length. -/
+    Everything is proved for ALL documents: any number of components, any nesting, any chain length.
+    Order independence of the OUTCOME of the work list: `connect_ok_iff_resolvable`, `connect_perm_outcome`
+    (lemmas in Cellml/Load/PermOutcome.lean). -/
 
 namespace Cellml.Props.C01
 open Load PMap
@@ -160,6 +163,30 @@ theorem connect_perm {reg : Registry} {vt : VarTable} {l l' : List (VRef × VRef
     (hp : l.Perm l') (h : connect reg vt l = .ok st) (h' : connect reg vt l' = .ok st') :
     ∀ v, rootOf st v = rootOf st' v :=
   connect_perm_root (fun _ => hp.mem_iff) h h'
+
+/-- THE CHARACTERISATION of the connection sets the work list accepts (`Load.Resolvable`, stated without any order):
+    (i) no variable is the target of two connections and no variable without `in` interface is a target,
+    (ii) every source is fed from a variable without `in` interface through the connections (no unfed relay, no cycle),
+    (iii) the two ends of every connection have convertible units, (iv) among the variables sharing one `assigned_to`
+    at most one carries a cmeta id. `connect` succeeds iff the set is resolvable — in whatever order it is given. -/
+theorem connect_ok_iff_resolvable (reg : Registry) (vt : VarTable) (cs : List (VRef × VRef)) :
+    (∃ st, connect reg vt cs = .ok st) ↔ Resolvable reg vt cs :=
+  connect_ok_iff_resolvable' reg vt cs
+
+/-- Success or failure of the work list is the same for every order of the connections. (The exception CLASS of a
+    failure may differ: "Target already assigned" ValueError in one order, the stuck-loop AssertionError in another.) -/
+theorem connect_perm_outcome {reg : Registry} {vt : VarTable} {cs₁ cs₂ : List (VRef × VRef)} (hp : cs₁.Perm cs₂) :
+    (∃ st, connect reg vt cs₁ = .ok st) ↔ (∃ st, connect reg vt cs₂ = .ok st) := by
+  rw [connect_ok_iff_resolvable, connect_ok_iff_resolvable]
+  exact ⟨Resolvable.perm hp, Resolvable.perm hp.symm⟩
+
+/-- Outcome and roots together: if one order is resolved, every other order is resolved too and gives every variable
+    the same root. -/
+theorem connect_perm_total {reg : Registry} {vt : VarTable} {cs₁ cs₂ : List (VRef × VRef)} {st₁ : CState}
+    (hp : cs₁.Perm cs₂) (h : connect reg vt cs₁ = .ok st₁) :
+    ∃ st₂, connect reg vt cs₂ = .ok st₂ ∧ ∀ v, rootOf st₁ v = rootOf st₂ v := by
+  obtain ⟨st₂, h₂⟩ := (connect_perm_outcome hp).mp ⟨st₁, h⟩
+  exact ⟨st₂, h₂, connect_perm hp h h₂⟩
 
 /-- the hypotheses of `direction_swap` for one connection: both variables exist, and the two components are not each
     other's parent -/
@@ -666,5 +693,42 @@ example : ∃ L, prepare relayDoc = .ok L ∧
 example (σ : VRef → Rat) (δ : VRef → VRef → Rat) (h : DocSat relayDoc relayL denInt σ δ) :
     FlatSat denInt (relayL.flat relayDoc) σ δ :=
   load_complete denOK_denInt relay_load relay_valid σ δ relayL relay_prepare h
+
+/-- `connect_ok_iff_resolvable`, both sides inhabited: the relay is resolvable … -/
+example : Resolvable relayUnits.1 relayVt relayDl :=
+  (connect_ok_iff_resolvable _ _ _).mp ⟨_, relay_connect⟩
+
+/-- … while a second source for `channel$V` (here `gate$y`) is refused in both orders (ValueError in both), -/
+def twoSources : List (VRef × VRef) := [(("membrane", "V"), ("channel", "V")), (("gate", "y"), ("channel", "V"))]
+
+example : connect relayUnits.1 relayVt twoSources = .error (.valueError "Target already assigned") ∧
+    connect relayUnits.1 relayVt twoSources.reverse = .error (.valueError "Target already assigned") ∧
+    ¬ Resolvable relayUnits.1 relayVt twoSources := by
+  have h1 : connect relayUnits.1 relayVt twoSources = .error (.valueError "Target already assigned") :=
+    connect_of_fuel 10 (by decide +kernel)
+  have h2 : connect relayUnits.1 relayVt twoSources.reverse = .error (.valueError "Target already assigned") :=
+    connect_of_fuel 10 (by decide +kernel)
+  refine ⟨h1, h2, fun R => ?_⟩
+  obtain ⟨st, hst⟩ := (connect_ok_iff_resolvable _ _ _).mpr R
+  rw [h1] at hst; cases hst
+
+/-- … and a relay nobody feeds (`channel$V` has an `in` interface and no incoming connection) stops the loop with the
+    `assert` (AssertionError): not resolvable either. -/
+example : connect relayUnits.1 relayVt [(("channel", "V"), ("gate", "v"))] =
+      .error (.assertion "Unable to add connections to the model") ∧
+    ¬ Resolvable relayUnits.1 relayVt [(("channel", "V"), ("gate", "v"))] := by
+  have h1 : connect relayUnits.1 relayVt [(("channel", "V"), ("gate", "v"))] =
+      .error (.assertion "Unable to add connections to the model") := connect_of_fuel 10 (by decide +kernel)
+  refine ⟨h1, fun R => ?_⟩
+  obtain ⟨st, hst⟩ := (connect_ok_iff_resolvable _ _ _).mpr R
+  rw [h1] at hst; cases hst
+
+/-- `connect_perm_outcome` applied: a refused set is refused in the reversed order too (no evaluation of that order) -/
+example (st : CState) : connect relayUnits.1 relayVt (twoSources ++ relayDl).reverse ≠ .ok st := by
+  intro h
+  obtain ⟨st', h'⟩ := (connect_perm_outcome (List.reverse_perm _)).mp ⟨st, h⟩
+  have : connect relayUnits.1 relayVt (twoSources ++ relayDl) = .error (.valueError "Target already assigned") :=
+    connect_of_fuel 20 (by decide +kernel)
+  rw [this] at h'; cases h'
 
 end Cellml.Props.C01
